@@ -816,22 +816,44 @@ fn gen_interp_terms(nodes: usize, len: usize) -> Vec<Case> {
         seqs
     };
     let mut out = vec![];
+    // hash fragments committing to preimages that are NOT 32 bytes long (the scripts check SIZE 32
+    // first, the interpreter has to refuse them before comparing hashes), alone and below and_v
+    let raw_terms = |tap: bool| -> Vec<T> {
+        let mut v = vec![];
+        for pre in [vec![], vec![2u8], vec![0x11u8; 31], vec![0x11u8; 33], vec![0x11u8; 32]] {
+            let l = format!("RAW{}", hex(&pre));
+            for h in [T::Sha256(l.clone()), T::Hash256(l.clone()), T::Ripemd160(l.clone()), T::Hash160(l.clone())] {
+                v.push(T::AndV(Box::new(T::Verify(Box::new(h.clone()))), Box::new(T::Check(Box::new(T::PkK("K1".into()))))));
+                v.push(T::OrB(Box::new(h.clone()), Box::new(T::Alt(Box::new(if tap { T::MultiA(1, vec!["K1".into()]) } else { T::Multi(1, vec!["K1".into()]) })))));
+                v.push(h);
+            }
+        }
+        v
+    };
+    let raw_pre = |t: &T| -> Vec<Vec<u8>> { t.hashes().into_iter().filter(|(_, l)| l.starts_with("RAW")).map(|(_, l)| crate::keys::preimage_bytes(&l)).collect() };
     // segwit v0
     let te = explore::<miniscript::Segwitv0>(nodes, Alphabet::Full, false);
     let alpha0 = vec![vec![], vec![1], sig_e.clone(), vec![0x42; 32], k.compressed()];
-    let st0 = stacks(&alpha0);
-    for m in te.all() {
-        if m.ty.corr.base != Base::B {
-            continue;
-        }
-        let t = walk(m).relabel_distinct();
+    let st0_plain = stacks(&alpha0);
+    let terms0: Vec<T> = te.all().filter(|m| m.ty.corr.base == Base::B).map(|m| walk(m).relabel_distinct()).chain(raw_terms(false)).collect();
+    for t in terms0 {
+        let raws = raw_pre(&t);
+        let st0_own;
+        let st0 = if raws.is_empty() {
+            &st0_plain
+        } else {
+            let mut a = alpha0.clone();
+            a.extend(raws);
+            st0_own = stacks(&a);
+            &st0_own
+        };
         let ms = match build::<bitcoin::PublicKey, miniscript::Segwitv0>(&t, &PkEnv { form: KeyForm::Compressed }) {
             Ok(x) => x,
             Err(_) => continue,
         };
         let ws = ms.encode().into_bytes();
         let spk = [vec![0x00, 0x20], bitcoin::hashes::sha256::Hash::hash(&ws).to_byte_array().to_vec()].concat();
-        for w in &st0 {
+        for w in st0 {
             let mut f = vec![spk.clone(), vec![]];
             f.extend(w.iter().cloned());
             f.push(ws.clone());
@@ -842,14 +864,21 @@ fn gen_interp_terms(nodes: usize, len: usize) -> Vec<Case> {
     // tapscript, one leaf
     let te = explore::<miniscript::Tap>(nodes, Alphabet::Full, true);
     let alpha1 = vec![vec![], vec![1], sig_s.clone(), vec![0x42; 32], k.x32()];
-    let st1 = stacks(&alpha1);
+    let st1_plain = stacks(&alpha1);
     let internal = key("KI").x32();
     let internal: [u8; 32] = internal.try_into().unwrap();
-    for m in te.all() {
-        if m.ty.corr.base != Base::B {
-            continue;
-        }
-        let t = walk(m).relabel_distinct();
+    let terms1: Vec<T> = te.all().filter(|m| m.ty.corr.base == Base::B).map(|m| walk(m).relabel_distinct()).chain(raw_terms(true)).collect();
+    for t in terms1 {
+        let raws = raw_pre(&t);
+        let st1_own;
+        let st1 = if raws.is_empty() {
+            &st1_plain
+        } else {
+            let mut a = alpha1.clone();
+            a.extend(raws);
+            st1_own = stacks(&a);
+            &st1_own
+        };
         let ms = match build::<bitcoin::key::XOnlyPublicKey, miniscript::Tap>(&t, &XEnv) {
             Ok(x) => x,
             Err(_) => continue,
@@ -860,7 +889,7 @@ fn gen_interp_terms(nodes: usize, len: usize) -> Vec<Case> {
         let (outk, _) = crate::world::ref_taproot_output(&internal, root);
         let spk = [vec![0x51, 0x20], outk.to_vec()].concat();
         let cb = crate::sat::ref_control_block(&leaves, 0, &internal);
-        for w in &st1 {
+        for w in st1 {
             let mut f = vec![spk.clone(), vec![]];
             f.extend(w.iter().cloned());
             f.push(leaf.clone());
